@@ -500,6 +500,61 @@ def _is_some_and(M, fr, n, a):
     if n.endswith('is_some_and'): return M.call_closure(fr, a[1], [o.f[0]]) if d == 1 else False
     if n.endswith('is_none_or'): return M.call_closure(fr, a[1], [o.f[0]]) if d == 1 else True
     return M.call_closure(fr, a[1], [o.f[0]]) if d == 0 else False
+@reg(r'^phf::Set::(<.*>::)?contains(::<.*>)?$|^phf::Map::(<.*>::)?contains_key(::<.*>)?$')
+def _phf_contains(M, fr, n, a):
+    """phf perfect-hash set by contract: `contains(k)` iff k equals one of the keys the static was built from (read from the static's initialiser in the MIR)"""
+    st = D(M, a[0])
+    if isinstance(st, Agg) and st.name.startswith('static:'): st = M.eval_const_item(fr, st.name[len('static:'):])
+    m = st.f[0] if (isinstance(st, Agg) and 'Set' in st.name) else st
+    if not (isinstance(m, Agg) and len(m.f) == 3): raise Unsupported('phf layout %r' % (st,))
+    key = as_str(M, a[1]); hit = False
+    for er in elem_refs(M, m.f[2]):
+        k = M.get(er.cell, er.path).f[0]
+        hit = b_or(hit, str_eq(M, D(M, k) if isinstance(k, Ref) else k, key))
+    return hit
+@reg(r"^<std::str::Chars<'_> as std::iter::DoubleEndedIterator>::next_back$|^<std::str::Chars as std::iter::DoubleEndedIterator>::next_back$")
+def _chars_next_back(M, fr, n, a):
+    it = D(M, a[0])
+    if not (isinstance(it, Agg) and it.name == 'Chars'): raise Unsupported('next_back on %r' % (it,))
+    if len(it.f) > 2: raise Unsupported('next_back on CharIndices')
+    s_, pos = it.f[0], it.f[1]
+    end = len(s_.b)
+    if end <= pos: return none()
+    k = end - 1
+    while k > pos and not is_sym(s_.b[k]) and (s_.b[k] & 0xC0) == 0x80: k -= 1
+    bs = s_.b[k:end]
+    if any(is_sym(x) for x in bs): raise Unsupported('next_back over symbolic bytes')
+    ch = ord(bytes(bs).decode('utf-8'))
+    it.f[0] = Str(list(s_.b[:k]))          # the iterator's own view shrinks from the back
+    return some(ch)
+@reg(r'^<std::boxed::Box<.*> as std::ops::Drop>::drop$|^std::mem::drop$|^core::mem::drop$')
+def _box_drop(M, fr, n, a): return UNIT
+def _float_display(x):
+    """Rust `{}` of an f64: shortest digits that round-trip, never an exponent"""
+    import math
+    from decimal import Decimal
+    if x != x: return 'NaN'
+    if math.isinf(x): return 'inf' if x > 0 else '-inf'
+    r = format(Decimal(repr(x)), 'f')
+    if '.' in r: r = r.rstrip('0').rstrip('.')
+    if r in ('-0', ''): r = '-0' if str(x)[0] == '-' else '0'
+    return r
+@reg(r'^<f64 as std::str::FromStr>::from_str$|^core::num::dec2flt::<impl std::str::FromStr for f64>::from_str$')
+def _f64_from_str(M, fr, n, a):
+    s_ = as_str(M, a[0]); t = s_.conc()
+    if t is None: raise Unsupported('f64::from_str of symbolic text (floating point is not encoded)')
+    if not re.fullmatch(r'[+-]?(\d+\.?\d*([eE][+-]?\d+)?|\.\d+([eE][+-]?\d+)?|inf|infinity|nan)', t, flags=re.I): return err(Agg('ParseFloatError', []))
+    return ok(Opaque(('float', float(t))))
+@reg(r'^<f64 as std::string::ToString>::to_string$|^<f64 as std::string::SpecToString>::spec_to_string$|^<f64 as std::fmt::Display>::fmt$')
+def _f64_to_string(M, fr, n, a):
+    v = D(M, a[0])
+    if not (isinstance(v, Opaque) and v.tag[0] == 'float' and isinstance(v.tag[1], (int, float))): raise Unsupported('formatting a non-concrete float')
+    text = _float_display(float(v.tag[1]))
+    if n.endswith('::fmt'):
+        D(M, a[1]).f[0].b.extend(text.encode()); return ok(UNIT)
+    return Str(text)
+@reg(r'^<f64 as std::ops::Neg>::neg$')
+def _f64_neg(M, fr, n, a): return Opaque(('float', -float(a[0].tag[1])))
 @reg(r'^<.* as std::iter::Iterator>::count$')
 def _iter_count(M, fr, n, a): return len(drain_all(M, fr, to_iter(M, fr, a[0])))
 @reg(r'^<.* as std::iter::Iterator>::last$')
@@ -1071,15 +1126,72 @@ def render_int(M, v, ty, maxdigits=7):
     nd = k + 1
     ds = [z3.Extract(7, 0, z3.URem(z3.UDiv(v, z3.BitVecVal(10 ** (nd - 1 - i), w)), z3.BitVecVal(10, w))) + 48 for i in range(nd)]
     return ([45] if neg else []) + ds
+def lastseg_(t):
+    from .mirread import lastseg
+    return lastseg(t)
 def render_arg(M, fr, arg):
     ty, ref, kind = arg.f
     v = M.deref(ref)
+    if kind == 'debug' and isinstance(v, EnumV) and not is_sym(simp(v.disc)):
+        # derived Debug of a fieldless variant prints the variant name
+        t = lastseg_(ty)
+        names = None
+        for cr, es in M.prog.enums_by_crate.items():
+            if t in es and (names is None or cr == fr.item.crate): names = es[t]
+        names = names or M.prog.enums.get(t)
+        if names and not v.f: return list(names[simp(v.disc)].encode())
+        return None
     if kind != 'display': return None
     t = ty.lstrip('&').strip()
     if t in INT_W and t not in ('bool', 'char'): return render_int(M, v, t)
     if t == 'char': return encode_char(M, v)
     if isinstance(v, Str): return list(v.b)
-    return None
+    return user_display(M, fr, ty, ref)
+def user_display(M, fr, ty, ref):
+    """text a type's own `Display::fmt` writes into a Formatter (the impl is run on a recording formatter); None when no impl is found"""
+    t = ty.strip()
+    while t.startswith('&'): t = t[1:].strip(); 
+    v = ref
+    while isinstance(v, Ref) and isinstance(M.get(v.cell, v.path), Ref): v = M.get(v.cell, v.path)
+    key = M.prog.resolve(fr.item.crate, '<%s as std::fmt::Display>::fmt' % t)
+    if key is None or not M.prog.items[key].blocks: return None
+    f = Cell(Agg('fmt::Formatter', [Str([])]))
+    r = M.call_fn(key, [v if isinstance(v, Ref) else Ref(Cell(v)), Ref(f)])
+    return list(f.v.f[0].b)
+@reg(r'^<.* as std::string::ToString>::to_string$|^<.* as std::string::SpecToString>::spec_to_string$')
+def _to_string_display(M, fr, n, a):
+    m = re.match(r'^<(.*) as std::string::(Spec)?ToString>::', n); ty = m.group(1)
+    if fr.generics and ty in fr.generics: ty = fr.generics[ty]
+    v = M.deref(a[0])
+    if isinstance(v, Str): return Str(list(v.b))
+    t = ty.lstrip('&').strip()
+    if t in INT_W and t not in ('bool', 'char'): return Str(render_int(M, v, t))
+    if t == 'char': return Str(encode_char(M, v))
+    r = user_display(M, fr, ty, a[0])
+    if r is None: raise Unsupported('to_string of ' + ty)
+    return Str(r)
+@reg(r"^std::fmt::Formatter::<'_>::write_str$|^std::fmt::Formatter::write_str$|^<std::fmt::Formatter<'_> as std::fmt::Write>::write_str$|^<str as std::fmt::Display>::fmt$|^<std::string::String as std::fmt::Display>::fmt$|^std::fmt::Formatter::<'_>::pad$|^std::fmt::Formatter::pad$")
+def _fmt_write_str(M, fr, n, a):
+    if n.endswith('::fmt'): s_, f = as_str(M, a[0]), D(M, a[1])
+    else: f, s_ = D(M, a[0]), as_str(M, a[1])
+    if not (isinstance(f, Agg) and f.name == 'fmt::Formatter'): raise Unsupported('formatter %r' % (f,))
+    f.f[0].b.extend(s_.b); return ok(UNIT)
+@reg(r"^std::fmt::Formatter::<'_>::write_fmt$|^std::fmt::Formatter::write_fmt$|^<std::fmt::Formatter<'_> as std::fmt::Write>::write_fmt$")
+def _fmt_write_fmt(M, fr, n, a):
+    f = D(M, a[0])
+    if not (isinstance(f, Agg) and f.name == 'fmt::Formatter'): raise Unsupported('formatter %r' % (f,))
+    r = _fmt_format(M, fr, n, [a[1]])
+    if not isinstance(r, Str): raise Unsupported('opaque format arguments written to a formatter')
+    f.f[0].b.extend(r.b); return ok(UNIT)
+@reg(r"^std::fmt::Formatter::<'_>::write_char$|^std::fmt::Formatter::write_char$|^<char as std::fmt::Display>::fmt$")
+def _fmt_write_char(M, fr, n, a):
+    if n.endswith('::fmt'): c, f = D(M, a[0]), D(M, a[1])
+    else: f, c = D(M, a[0]), a[1]
+    f.f[0].b.extend(encode_char(M, c)); return ok(UNIT)
+@reg(r'^<(u8|u16|u32|u64|usize|u128|i8|i16|i32|i64|i128|isize) as std::fmt::Display>::fmt$')
+def _int_display(M, fr, n, a):
+    ty = re.match(r'^<(\w+) as', n).group(1); f = D(M, a[1])
+    f.f[0].b.extend(render_int(M, D(M, a[0]), ty)); return ok(UNIT)
 @reg(r'^std::fmt::format$|^alloc::fmt::format$')
 def _fmt_format(M, fr, n, a):
     A = a[0]
@@ -1637,6 +1749,7 @@ def _time_from_hms(M, fr, n, a):
 def _time_hmsm(M, fr, n, a):
     t = D(M, a[0]) if isinstance(a[0], Ref) else a[0]
     if t.name.endswith('PrimitiveDateTime'): t = t.f[1]
+    if len(t.f) < 4: raise Unsupported('as_hms_micro of %r' % (t,))
     ns = t.f[3]
     micro = ns // 1000 if not is_sym(ns) else z3.UDiv(ns, z3.BitVecVal(1000, ns.size()))
     return Agg('()', [t.f[0], t.f[1], t.f[2], micro])
